@@ -4,7 +4,7 @@
    bytes; subst = placeholder replacement; entry / help_text = what the property demands of the description;
    visible_opts = options with level(o) <= L in groups with level(g) <= L, sub groups first, then the main group;
    cmd_safe = a default that survives the command-string syntax.                                                    *)
-Require Import V.Lib.Base V.Gen.Consts_C19 V.C19.Model V.C19.Spec V.C19.Proofs V.C19.Proofs2 V.C19.Proofs3.
+Require Import V.Lib.Base V.Gen.Consts_C19 V.C19.Key V.C19.KeySpec V.C19.Model V.C19.Spec V.C19.Proofs V.C19.Proofs2 V.C19.Proofs3 V.C19.ProofsKey.
 Require Import Permutation.
 Local Open Scope Z_scope.
 
@@ -129,6 +129,76 @@ Theorem c19_merge_defaults_parse : forall (dl n : Z) (ps : list group),
 Proof. exact merged_defaults_parse. Qed.
 Print Assumptions c19_merge_defaults_parse.
 
+(* ---------------- the key syntax  name[!][,alias][,@level]  (OptionInitHelper::operator(), Key.parse_key) ----------------
+   parse_key gl key vl : gl = level of the owning group AT THE TIME of the declaration, vl = level of the value handed in; None = Error thrown.
+   key_form (KeySpec.v) describes the accepted keys declaratively:
+     name            -> (name', neg, no alias, vl)            the value keeps its own level
+     name,a          -> (name', neg, a, gl)                   an omitted @level means the level of the group - whatever other parts are present
+     name,a,@N       -> (name', neg, a, N)        name,@N  -> (name', neg, no alias, N)        N a decimal number <= desc_level_hidden
+     name,a,  and  name,a,@ (= level 0)  are accepted too (LENIENT);  N is accumulated in an unsigned (see c19_key_level_wraps)
+   with name' / neg from the name part:  name -> (name, false),  name! -> (name, true),  name\! -> (name!, false);  name is non-empty, has no ','
+   and does not start with '!'.                                                                                                             *)
+
+(* every key that is accepted declares exactly the option the syntax denotes - and nothing else is accepted *)
+Theorem c19_key_denotes : forall (gl vl : Z) (key : list Z) (d : keyd),
+  parse_key gl key vl = Some d <-> key_form gl vl key d.
+Proof. intros. apply parse_key_iff. Qed.
+Print Assumptions c19_key_denotes.
+
+(* every byte string that is not a key of this syntax is refused *)
+Theorem c19_key_malformed_refused : forall (gl vl : Z) (key : list Z),
+  (forall d, ~ key_form gl vl key d) -> parse_key gl key vl = None.
+Proof. intros gl vl key. apply parse_key_refuses. Qed.
+Print Assumptions c19_key_malformed_refused.
+
+(* an accepted key without a level part (no '@' anywhere): the option gets the level of the group it is declared in as soon as the key has a
+   ',' part, and keeps the level of its value when it has none - independent of negation mark and alias *)
+Theorem c19_key_omitted_level : forall (gl vl : Z) (key : list Z) (d : keyd),
+  parse_key gl key vl = Some d -> ~ In KEY_LEVEL key ->
+  (In KEY_SEP key -> k_level d = gl) /\ (~ In KEY_SEP key -> k_level d = vl).
+Proof.
+  intros gl vl key d H Hn. apply parse_key_sound in H. destruct H as [ln nm neg Hne Hns Hh Hf|ln n a lv nm neg Hne Hns Hh Ht Hf]; cbn [k_level].
+  - split; [intros Hi; exfalso; exact (Hns Hi)|reflexivity].
+  - split; [|intros Hi; exfalso; apply Hi; apply in_or_app; right; left; reflexivity].
+    intros _. destruct Ht as [a0 Hg|a0 Hg|a0 ds Hd Hl|d0 ds Hd Hl]; try reflexivity;
+      exfalso; apply Hn; apply in_or_app; right; right; cbn; tauto.
+Qed.
+Print Assumptions c19_key_omitted_level.
+
+(* round trip: the key written for (name, negatable, alias, level or none) reads back as exactly that; with the level left out it is the
+   group's level when there is an alias and the value's level when there is none *)
+Theorem c19_key_roundtrip : forall (gl vl : Z) (nm : list Z) (neg : bool) (alias : Z) (lv : option Z),
+  nm <> [] -> no_sep nm -> hd 0 nm <> KEY_NEG -> (neg = true -> ~ exists p, nm = p ++ [KEY_ESC]) ->
+  (forall l, lv = Some l -> 0 <= l <= LEVEL_HIDDEN) -> (lv = None -> alias <> 0 -> gl <= LEVEL_HIDDEN) ->
+  parse_key gl (render_key nm neg alias lv) vl = Some (mkK nm neg alias (denoted_level gl vl alias lv)).
+Proof. exact render_parse. Qed.
+Print Assumptions c19_key_roundtrip.
+
+(* the level number: up to 9 digits it is the plain decimal value (leading zeros allowed) *)
+Theorem c19_key_level_number : forall ds : list Z, all_digits ds -> (length ds <= 9)%nat -> dec_acc ds 0 = dec_plain ds 0.
+Proof. exact dec_acc_small. Qed.
+Print Assumptions c19_key_level_number.
+
+(* what this means for the help text and the default command line: an option declared through a key with an alias and without @level in a
+   group whose level was gl at that moment is listed at active level L only if gl <= L - however far the level of its group is lowered
+   afterwards (setDescriptionLevel, or a merge with a same-caption group of a lower level: the level q gives) - and it is listed as soon as
+   gl <= L and its caption is shown *)
+Theorem c19_key_inherited_level_visible : forall (ps : list group) (dl gl vl : Z) (p : group) (o : vopt) (nm : list Z) (neg : bool) (alias : Z),
+  In p ps -> In o (g_opts p) ->
+  nm <> [] -> no_sep nm -> hd 0 nm <> KEY_NEG -> (neg = true -> ~ exists q, nm = q ++ [KEY_ESC]) -> alias <> 0 -> gl <= LEVEL_HIDDEN ->
+  parse_key gl (render_key nm neg alias None) vl = Some (mkK (v_name o) (v_neg o) (v_alias o) (v_level o)) ->
+  (In o (visible_opts dl (build_ctx ps)) -> gl <= dl) /\
+  (gl <= dl -> (exists q, In q ps /\ g_caption q = g_caption p /\ g_level q <= dl) -> In o (visible_opts dl (build_ctx ps))).
+Proof.
+  intros ps dl gl vl p o nm neg alias Hp Ho H1 H2 H3 H4 Ha Hg Hk.
+  rewrite (render_parse gl vl nm neg alias None H1 H2 H3 H4) in Hk; [|discriminate|intros _ _; exact Hg].
+  injection Hk as E1 E2 E3 E4. unfold denoted_level in E4. apply Z.eqb_neq in Ha. rewrite Ha in E4.
+  split.
+  - intros Hv. apply merged_visible in Hv. destruct Hv as (p' & _ & _ & Hl & _). lia.
+  - intros Hl Hq. apply merged_visible. exists p. split; [exact Hp|]. split; [exact Ho|]. split; [lia|exact Hq].
+Qed.
+Print Assumptions c19_key_inherited_level_visible.
+
 (* ---------------- non-vacuity ---------------- *)
 (* alias + negatable + implicit + argument; long negatable flag; empty argument name on a non-implicit option *)
 Definition ex_a : vopt := mkO [97] 97 [60; 110; 62] true [50] true (Some [49]) 0 [65; 32; 37; 65; 32; 37; 68; 32; 37; 73; 32; 37; 37; 32; 37; 120; 32; 37].
@@ -178,3 +248,69 @@ Proof. vm_compute. reflexivity. Qed.
 Example c19_ex_merge_parse :
   parse_cmd_os (registered ex_ps) (defaults 0 0 (build_ctx ex_ps)) = POk [(1%nat, [49]); (4%nat, [49]); (0%nat, [49]); (2%nat, [49])].
 Proof. vm_compute. reflexivity. Qed.
+
+(* ---- the key syntax ---- *)
+Definition k_restarts := [114;101;115;116;97;114;116;115].          (* restarts *)
+Example c19_ex_keys :
+  (* restarts,r in a group of level 2: level 2, whatever level the value has *)
+  parse_key 2 (k_restarts ++ [44;114]) 0 = Some (mkK k_restarts false 114 2) /\
+  parse_key 2 (k_restarts ++ [44;114]) 4 = Some (mkK k_restarts false 114 2) /\
+  parse_key 2 (k_restarts ++ [33;44;114]) 0 = Some (mkK k_restarts true 114 2) /\            (* restarts!,r *)
+  parse_key 2 (k_restarts ++ [44;114;44;64;49]) 0 = Some (mkK k_restarts false 114 1) /\     (* restarts,r,@1 *)
+  parse_key 2 (k_restarts ++ [44;64;49]) 0 = Some (mkK k_restarts false 0 1) /\              (* restarts,@1 *)
+  parse_key 2 (k_restarts ++ [44;64;48;48;53]) 0 = Some (mkK k_restarts false 0 5) /\        (* restarts,@005 *)
+  parse_key 2 k_restarts 0 = Some (mkK k_restarts false 0 0) /\                              (* plain: the value's level *)
+  parse_key 2 k_restarts 3 = Some (mkK k_restarts false 0 3) /\
+  parse_key 2 (k_restarts ++ [33]) 3 = Some (mkK k_restarts true 0 3) /\                     (* restarts! *)
+  parse_key 2 (k_restarts ++ [92;33]) 0 = Some (mkK (k_restarts ++ [33]) false 0 0) /\       (* restarts\! : the name ends in '!' *)
+  parse_key 2 (k_restarts ++ [44;64]) 0 = Some (mkK k_restarts false 64 2) /\                (* restarts,@ : the alias is '@' *)
+  parse_key 2 (k_restarts ++ [44;64;44;64;51]) 0 = Some (mkK k_restarts false 64 3).         (* restarts,@,@3 *)
+Proof. vm_compute. repeat split; reflexivity. Qed.
+(* refused: empty key, no name, name starting with '!', nothing behind the ',', alias of two characters, something behind the alias that is no
+   level, level above desc_level_hidden, level in front of the alias, junk behind the level, a second level, a negative level *)
+Example c19_ex_keys_refused :
+  forallb (fun key => match parse_key 2 key 0 with None => true | Some _ => false end)
+    [[]; [44;120]; [33;120]; [33]; [120;44]; [120;44;97;98]; [120;44;97;44;98]; [120;44;64;54]; [120;44;64;49;50]; [120;44;64;50;44;97];
+     [120;44;97;64;50]; [120;44;64;50;120]; [120;44;97;44;64;50;44]; [120;44;97;44;64;50;44;64;51]; [120;44;64;45;49]; [120;44;97;44;64;54];
+     [120;44;97;44;50]] = true /\
+  (* a group of level 6 or 7 cannot declare a key with a ',' part and without @level *)
+  parse_key 6 [120;44;97] 0 = None /\ parse_key 6 [120;44;97;44;64;50] 0 = Some (mkK [120] false 97 2).
+Proof. vm_compute. repeat split; reflexivity. Qed.
+(* accepted beyond the documented syntax (LENIENT): a trailing ',' behind the alias, '@' without a number (level 0), a ',' as alias *)
+Example c19_key_lenient :
+  parse_key 2 [120;44;97;44] 0 = Some (mkK [120] false 97 2) /\ parse_key 2 [120;44;97;44;64] 0 = Some (mkK [120] false 97 0) /\
+  parse_key 2 [120;44;44] 0 = Some (mkK [120] false 44 2) /\ parse_key 2 [120;44;44;44;64;51] 0 = Some (mkK [120] false 44 3).
+Proof. vm_compute. repeat split; reflexivity. Qed.
+(* the level number wraps around in the unsigned accumulator: "x,@4294967296" is accepted with level 0, "x,@4294967301" with level 5 *)
+Example c19_key_level_wraps :
+  parse_key 2 [120;44;64;52;50;57;52;57;54;55;50;57;54] 0 = Some (mkK [120] false 0 0) /\
+  parse_key 2 [120;44;64;52;50;57;52;57;54;55;51;48;49] 0 = Some (mkK [120] false 0 5) /\
+  parse_key 2 [120;44;64;52;50;57;52;57;54;55;51;48;50] 0 = None.
+Proof. vm_compute. repeat split; reflexivity. Qed.
+(* the hypotheses of the round trip are satisfiable: seed-mode (negatable) with alias s, no level *)
+Example c19_ex_key_roundtrip :
+  let nm := [115;101;101;100;45;109;111;100;101] in
+  nm <> [] /\ no_sep nm /\ hd 0 nm <> KEY_NEG /\ (true = true -> ~ exists p, nm = p ++ [KEY_ESC]) /\
+  render_key nm true 115 None = nm ++ [33;44;115] /\ render_key (nm ++ [33]) false 0 (Some 4) = nm ++ [92;33;44;64;52] /\
+  parse_key 3 (render_key nm true 115 None) 0 = Some (mkK nm true 115 3).
+Proof.
+  cbn zeta. split; [discriminate|]. split; [unfold no_sep, KEY_SEP; cbn; intuition discriminate|]. split; [cbn; discriminate|].
+  split; [|vm_compute; repeat split; reflexivity].
+  intros _ [p Hp]. apply (f_equal (@rev Z)) in Hp. rewrite rev_app_distr in Hp. cbn in Hp. discriminate.
+Qed.
+(* the demonstration: an expert group "S" (level 2) declares restarts,r / luby,@1 / depth (plain); a basic group "S" (level 0) declares
+   threads,t; merged by add the group has level 0 - restarts stays hidden below level 2, luby below level 1 *)
+Definition ex_decl (gl : Z) (key : list Z) (vl : Z) : list vopt :=
+  match parse_key gl key vl with
+  | Some k => [mkO (k_name k) (k_alias k) ARG_DEFAULT false IMPLICIT_DEFAULT (k_neg k) (Some [49]) (k_level k) []]
+  | None => []
+  end.
+Definition ex_key_ps : list group :=
+  [mkG [83] 2 (ex_decl 2 (k_restarts ++ [44;114]) 0 ++ ex_decl 2 [108;117;98;121;44;64;49] 0 ++ ex_decl 2 [100;101;112;116;104] 0);
+   mkG [83] 0 (ex_decl 0 [116;104;114;101;97;100;115;44;116] 0)].
+Example c19_ex_key_visible :
+  map g_level (build_ctx ex_key_ps) = [0] /\
+  map v_name (visible_opts 0 (build_ctx ex_key_ps)) = [[100;101;112;116;104]; [116;104;114;101;97;100;115]] /\
+  map v_name (visible_opts 1 (build_ctx ex_key_ps)) = [[108;117;98;121]; [100;101;112;116;104]; [116;104;114;101;97;100;115]] /\
+  map v_name (visible_opts 2 (build_ctx ex_key_ps)) = [k_restarts; [108;117;98;121]; [100;101;112;116;104]; [116;104;114;101;97;100;115]].
+Proof. vm_compute. repeat split; reflexivity. Qed.
